@@ -9,6 +9,18 @@ import TshVerif.Model.Transpile
 namespace Tsh.Bash
 open Tsh Tsh.Tr
 
+/-- The test of a conditional value `$(if TEST; then echo a; else echo b; fi)`. -/
+inductive Test
+  | cmp (l os r : String)                           -- `[ "l" os "r" ]`
+  | log (l op r : String)                           -- `[ "l" -eq "1" ] op [ "r" -eq "1" ]`
+  | exists_ (p : String)                            -- `[ -e "p" ]`
+deriving Repr, DecidableEq
+
+def Test.render : Test → String
+  | .cmp l os r => s!"[ \"{l}\" {os} \"{r}\" ]"
+  | .log l op r => s!"[ \"{l}\" -eq \"1\" ] {op} [ \"{r}\" -eq \"1\" ]"
+  | .exists_ p => s!"[ -e \"{p}\" ]"
+
 /-- One emitted line of the bash converter.  Operands are already-rendered operand texts
     (`${x}`, `${_h3}`, literal text, decimal numbers) exactly as the Go code passes them around. -/
 inductive Line
@@ -16,6 +28,8 @@ inductive Line
   | comment (text : String)                         -- `# global … helper`
   | raw (text : String)                             -- fixed helper-body lines
   | assign (name : String) (value : String)         -- varAssignmentString (quote heuristic in render)
+  | assignArith (name l op r : String)              -- `name="$((l op r))"`
+  | assignTest (name : String) (t : Test) (a b : String)   -- `name="$(if t; then echo a; else echo b; fi)"`
   | localAssign (name : String) (value : String)    -- `local name="$i"`
   | sah (arr index value dflt : String)             -- `_sah ${arr} idx "v" "d"`
   | funcStart (name : String)
@@ -51,6 +65,8 @@ def Line.render : Line → String
   | .comment t => s!"# global {t} helper"
   | .raw t => t
   | .assign n v => s!"{n}=\"{v}\""
+  | .assignArith n l op r => s!"{n}=\"$(({l}{op}{r}))\""
+  | .assignTest n t a b => s!"{n}=\"$(if {t.render}; then echo {a}; else echo {b}; fi)\""
   | .localAssign n v => s!"local {n}=\"{v}\""
   | .sah a i v d => s!"_sah {a} {i} \"{v}\" \"{d}\""
   | .funcStart n => s!"{n}() \{"
@@ -115,6 +131,14 @@ def varAssignment (name value : String) (global : Bool) : BM Unit := do
   let s ← get
   addLine (.assign (varName s name global) value)
 
+def varAssignArith (name l op r : String) (global : Bool) : BM Unit := do
+  let s ← get
+  addLine (.assignArith (varName s name global) l op r)
+
+def varAssignTest (name : String) (t : Test) (a b : String) (global : Bool) : BM Unit := do
+  let s ← get
+  addLine (.assignTest (varName s name global) t a b)
+
 def varEvaluation (name : String) (global : Bool) : BM String := do
   let s ← get
   pure (varEvalString s name global)
@@ -137,7 +161,7 @@ def condAssign (test : String) (t f : String) : String :=
 def unaryOp (expr op : String) : BM String := do
   let h ← nextHelperVar
   if op == "!" then
-    varAssignment h (condAssign s!"[ \"{expr}\" -eq \"1\" ]" "0" "1") false
+    varAssignTest h (.cmp expr "-eq" "1") "0" "1" false
     varEvaluation h false
   else fail s!"unknown unary operator \"{op}\""
 
@@ -150,7 +174,7 @@ def binaryOp (left op right : String) (vt : ValueType) : BM String := do
   match vt.dt with
   | .int =>
     if op == "*" || op == "/" || op == "%" || op == "+" || op == "-" then do
-      varAssignment h s!"$(({left}{op}{right}))" false
+      varAssignArith h left op right false
       varEvaluation h false
     else notAllowedBin op vt
   | .string =>
@@ -173,7 +197,7 @@ def compareOpString (op : String) (vt : ValueType) : String :=
 def comparisonOpWith (os left op right : String) (vt : ValueType) : BM String :=
   if os.length == 0 then fail s!"comparison {op} is not allowed on type {vt.name}" else do
   let h ← nextHelperVar
-  varAssignment h (condAssign s!"[ \"{left}\" {os} \"{right}\" ]" "1" "0") false
+  varAssignTest h (.cmp left os right) "1" "0" false
   varEvaluation h false
 
 def comparisonOp (left op right : String) (vt : ValueType) : BM String :=
@@ -182,7 +206,7 @@ def comparisonOp (left op right : String) (vt : ValueType) : BM String :=
 def logicalOp (left op right : String) : BM String := do
   if op == "&&" || op == "||" then
     let h ← nextHelperVar
-    varAssignment h (condAssign s!"[ \"{left}\" -eq \"1\" ] {op} [ \"{right}\" -eq \"1\" ]" "1" "0") false
+    varAssignTest h (.log left op right) "1" "0" false
     varEvaluation h false
   else fail s!"unknown logical operator \"{op}\""
 
@@ -270,7 +294,7 @@ def copyOp (dst src : String) (global : Bool) : BM String := do
 
 def existsOp (path : String) : BM String := do
   let h ← nextHelperVar
-  varAssignment h (condAssign s!"[ -e \"{path}\" ]" "1" "0") false
+  varAssignTest h (.exists_ path) "1" "0" false
   varEvaluation h false
 
 def readFile (path : String) : BM String := do
